@@ -505,6 +505,10 @@ func genC09ManyNonces() *rapid.Generator[C09Case] {
 		if rapid.Bool().Draw(t, "second") {
 			c.Steps = append(c.Steps, C09Step{K: "send", TsOffS: -1})
 		}
+		// the accepted request may be fresh or already in the older half of its window when the others arrive
+		if tolS := int(c.Route.tol() / time.Second); rapid.Bool().Draw(t, "aged") {
+			c.Steps = append(c.Steps, C09Step{K: "adv", Ms: rapid.SampledFrom([]int{tolS*500 + 1000, tolS * 900, tolS*1000 - 1000}).Draw(t, "age_ms")})
+		}
 		n := rapid.SampledFrom([]int{1023, 1024, 1025, 2048, 4095, 4096, 4097, 8191, 8192, 8193, 9000, 10000, 16385}).Draw(t, "n")
 		mode := rapid.SampledFrom([]string{"valid", "badsig"}).Draw(t, "mode")
 		c.Steps = append(c.Steps, C09Step{K: "flood", N: n, Mode: mode})
